@@ -12,7 +12,8 @@ from ..core import Check, Part, Result, must
 
 @st.composite
 def cases(draw, big=False):
-    spec = draw(ng.netspecs(mu.profile(big)))
+    fam = draw(st.sampled_from(['2d', '2d', '2d', '1d']))
+    spec = draw(ng.netspecs(mu.profile(big, family=fam)))
     t = draw(st.floats(min_value=math.log(0.05), max_value=math.log(20.0)))
     return {'spec': spec, 'w_prec': draw(mu.precisions), 'a_prec': draw(mu.precisions),
             'wseed': draw(st.integers(0, 50)), 'xseed': draw(st.integers(0, 50)),
@@ -141,7 +142,7 @@ CHECK = Check(
         Part('nets-big', oracle, strategy=cases(big=True),
              budget={'quick': 0, 'thorough': 200}, shards={'quick': 1, 'thorough': 16}),
     ],
-    rule=("Generated 2-D NetSpec networks (Conv2d incl. depthwise, Linear, Conv-BN, Linear-BN, "
+    rule=("Generated 2-D (3 in 4) and 1-D (Conv1d incl. depthwise, no BN) NetSpec networks (Conv2d incl. depthwise, Linear, Conv-BN, Linear-BN, "
           "residual add, flatten variants, pooling, activations), per-layer weight search, weight "
           "and activation precision tuples = any ordered subset of {2,4,8}, random selection "
           "coefficients with pairwise gaps >= 0.05 in random order, temperature log-uniform in "
